@@ -266,6 +266,11 @@ func (srv *Srv) open(req *SrvReq) {
 }
 
 func (srv *Srv) openPost(req *SrvReq) {
+	if req.Rc == nil || req.Rc.Type != Ropen {
+		/* a refused or failed Topen leaves the fid as it was */
+		return
+	}
+
 	if req.Fid != nil {
 		req.Fid.opened = req.Rc != nil && req.Rc.Type == Ropen
 	}
